@@ -270,6 +270,25 @@ func Generate(r *rng.R, fam int) *Scenario {
 		s.tag("grpcroute")
 	}
 	wholeGw := func(g gwRef) string { return "" }
+	if r.Chance(12, 100) {
+		// more than twelve match rules of equal priority on one host and path: Go's sorts switch from insertion
+		// sort to an unstable algorithm above 12 elements, so only here does "stable" differ from "unstable"
+		// Two routes with 7-8 rules each (the younger one may be visited first, so the sort has real work to do).
+		ns := rng.Pick(r, nss)
+		host := rng.Pick(r, hostPool)
+		ps := parents(wholeGw)
+		for _, nm := range []string{"many-a", "many-b"} {
+			var rules []gatewayv1.HTTPRouteRule
+			for j := 0; j < r.Range(7, 8); j++ {
+				m := p.PathMatch("PathPrefix", "/many")
+				m.Headers = []gatewayv1.HTTPHeaderMatch{{Type: ptr(gatewayv1.HeaderMatchExact), Name: "x-variant", Value: fmt.Sprintf("%s-%d", nm, j)}}
+				rules = append(rules, p.HTTPRule([]gatewayv1.HTTPRouteMatch{m}, p.Backend{Ref: fmt.Sprintf("svc%d", j%3), Port: 80, Weight: 1}))
+			}
+			add(p.HTTPRoute(ns, nm, age(), ps, host, rules...))
+			l7 = append(l7, routeRef{"HTTPRoute", ns, nm})
+		}
+		s.tag("many-equal-rules")
+	}
 	switch fam {
 	case FamSameNameRoute:
 		// HTTPRoute and GRPCRoute ns/name identical; both with two weighted backends so that the shared
@@ -364,18 +383,35 @@ func Generate(r *rng.R, fam int) *Scenario {
 
 	// ---------------------------------------------------------------- NGF policies
 	multi := fam == FamMultiTarget
-	// ClientSettingsPolicy (single targetRef by type)
+	// ClientSettingsPolicy (single targetRef by type). "stack": four to six policies on ONE target with sparse field
+	// sets, so that conflicts interleave by age (A-C, B-D, ...), some policies survive behind already-conflicted ones.
+	cspNames := []string{"csp", "csp-a", "csp-b", "csp-c", "csp-d", "csp-e", "csp-f", "csp-g"}
 	ncsp := rng.Pick(r, []int{0, 0, 2, 3, 4})
+	stack := r.Chance(40, 100)
+	var stNS, stKind, stName string
+	if stack {
+		ncsp = r.Range(4, 6)
+		if r.Chance(60, 100) || len(l7) == 0 {
+			g := rng.Pick(r, gws)
+			stNS, stKind, stName = g.ns, "Gateway", g.name
+		} else {
+			t := rng.Pick(r, l7)
+			stNS, stKind, stName = t.ns, t.kind, t.name
+		}
+		s.tag("csp-stack")
+	}
 	for i := 0; i < ncsp; i++ {
 		var ns, kind, tname string
-		if r.Chance(50, 100) || len(l7) == 0 {
+		if stack {
+			ns, kind, tname = stNS, stKind, stName
+		} else if r.Chance(50, 100) || len(l7) == 0 {
 			g := rng.Pick(r, gws)
 			ns, kind, tname = g.ns, "Gateway", g.name
 		} else {
 			t := rng.Pick(r, l7)
 			ns, kind, tname = t.ns, t.kind, t.name
 		}
-		name := rng.Pick(r, []string{"csp", "csp-a", "csp-b", "csp-c"})
+		name := rng.Pick(r, cspNames)
 		if usedR["csp/"+ns+"/"+name] {
 			continue
 		}
@@ -383,6 +419,12 @@ func Generate(r *rng.R, fam int) *Scenario {
 		csp := &ngfAPI.ClientSettingsPolicy{ObjectMeta: p.Meta(ns, name, age())}
 		csp.Spec.TargetRef = v1alpha2.LocalPolicyTargetReference{Group: "gateway.networking.k8s.io", Kind: gatewayv1.Kind(kind), Name: gatewayv1.ObjectName(tname)}
 		bits := r.Range(1, 31)
+		if stack || r.Chance(50, 100) {
+			bits = 1 << r.Intn(5)
+			if r.Chance(35, 100) {
+				bits |= 1 << r.Intn(5)
+			}
+		}
 		if bits&3 != 0 {
 			csp.Spec.Body = &ngfAPI.ClientBody{}
 			if bits&1 != 0 {
@@ -479,14 +521,27 @@ func Generate(r *rng.R, fam int) *Scenario {
 		s.tag("usp-chain")
 		nusp = r.Intn(2)
 	}
+	uspStack := !multi && r.Chance(30, 100)
+	if uspStack {
+		nusp = r.Range(4, 6)
+		add(p.HTTPRoute(uns, "stack-route", age(), parents(wholeGw), nil,
+			p.HTTPRule([]gatewayv1.HTTPRouteMatch{p.PathMatch("PathPrefix", "/stack")}, p.Backend{Ref: "svc0", Port: 80, Weight: 1})))
+		s.tag("usp-stack")
+	}
 	for i := 0; i < nusp; i++ {
-		name := rng.Pick(r, []string{"usp", "usp-a", "usp-b", "usp-c"})
+		name := rng.Pick(r, []string{"usp", "usp-a", "usp-b", "usp-c", "usp-d", "usp-e", "usp-f", "usp-g"})
 		if usedR["usp/"+uns+"/"+name] {
 			continue
 		}
 		usedR["usp/"+uns+"/"+name] = true
 		up := &ngfAPI.UpstreamSettingsPolicy{ObjectMeta: p.Meta(uns, name, age())}
 		bits := r.Range(1, 31)
+		if uspStack || r.Chance(50, 100) {
+			bits = 1 << r.Intn(5)
+			if r.Chance(35, 100) {
+				bits |= 1 << r.Intn(5)
+			}
+		}
 		if bits&1 != 0 {
 			up.Spec.ZoneSize = ptr(ngfAPI.Size(rng.Pick(r, []string{"1m", "2m"})))
 		}
@@ -512,6 +567,9 @@ func Generate(r *rng.R, fam int) *Scenario {
 		seen := map[string]bool{}
 		for k := 0; k < nt; k++ {
 			t := fmt.Sprintf("svc%d", r.Intn(3))
+			if uspStack {
+				t = "svc0"
+			}
 			if seen[t] {
 				continue
 			}
